@@ -1040,4 +1040,39 @@ theorem allListed_reach (T : Torrent) (sha1 : Bytes → Bytes) (S : Sys) (h : Sy
       · simp only [updateTask, hba, if_false] at hb ⊢
         exact ih b hb
 
+/-! ### A task that ends is forgotten -/
+
+theorem find_filter_self (ps : List MPeer) (a : Nat) :
+    (ps.filter (fun x => decide (x.addr ≠ a))).find? (·.addr = a) = none := by
+  induction ps with
+  | nil => rfl
+  | cons x xs ih =>
+    by_cases hx : x.addr = a
+    · rw [List.filter_cons_of_neg (by simp [hx])]; exact ih
+    · rw [List.filter_cons_of_pos (by simp [hx]), List.find?_cons_of_neg (by simp [hx])]; exact ih
+
+/-- Whatever ends a connection task (the peer closing the stream, a malformed frame, a wrong handshake, the keep-alive
+    limit, a hash mismatch, `PrepareKill`): after the joint step the manager has no record of that connection, and the
+    piece it was assigned is `Missing` again unless it is owned. -/
+theorem ended_is_forgotten (T : Torrent) (sha1 : Bytes → Bytes) (disk : Bytes → Option Bytes) (a : Nat) (m m' : MState)
+    (t t' : HState) (inp : HIn) (outs : List HOut) (hal : t.alive = true) (hs : LStepO T sha1 disk a m t inp m' t' outs)
+    (hdead : t'.alive = false) : findPeer m' a = none := by
+  obtain ⟨e, m1, hh, _, rfl⟩ := hs
+  cases e with
+  | none =>
+    have := (hstep_view sha1 disk t hal inp t' outs hh).2.2
+    rw [hdead] at this; cases this
+  | some b =>
+    simp only [afterEnd]
+    cases hk : mstep m1 (.kill a) with
+    | panic w => simp [mstep] at hk; cases hp : findPeer m1 a <;> simp [hp] at hk
+    | ok m2 r =>
+      simp only [mstep] at hk
+      cases hp : findPeer m1 a with
+      | none => simp only [hp, Out.ok.injEq] at hk; rw [← hk.1]; exact hp
+      | some p =>
+        simp only [hp, Out.ok.injEq] at hk
+        rw [← hk.1]
+        exact find_filter_self m1.peers a
+
 end Rdest.Swarm.Loop
